@@ -413,12 +413,22 @@ func (f *Flooder) floodAdvertisementEncrypted(
 		fwdDisplayName = ""
 	}
 
+	// Each forwarding hop adds one to the metric, so that the metric a
+	// receiver records (received metric + 1) equals its hop count to the origin.
+	fwdRoutes := make([]protocol.Route, len(routes))
+	copy(fwdRoutes, routes)
+	for i := range fwdRoutes {
+		if fwdRoutes[i].Metric < ^uint16(0) {
+			fwdRoutes[i].Metric++
+		}
+	}
+
 	// Build the advertise payload with extended path
 	adv := &protocol.RouteAdvertise{
 		OriginAgent:       originAgent,
 		OriginDisplayName: fwdDisplayName,
 		Sequence:          sequence,
-		Routes:            routes,
+		Routes:            fwdRoutes,
 		EncPath:           fwdEncPath,
 		SeenBy:            seenBy,
 	}
